@@ -1,6 +1,20 @@
 /-
   C13 - Cross-reference tables and streams decode to the entries written.
-  Property theorems; helper lemmas are in `Parsley/Lemmas/Xref.lean`.
+
+  Property theorems over the model `Parsley/Model/Xref.lean` and the spec `Parsley/Spec/Xref.lean`
+  (helper lemmas: `Parsley/Lemmas/Xref.lean`).  All are for ALL inputs, no size bounds.
+
+  classic table   entry_spec, entry_malformed_rejected      XrefEntP accepts iff the 20-byte form
+                  table_roundtrip                          any partition x 3 terminators -> exactly the entries
+                  table_malformed_rejected                 (= ..._first_/..._later_subsection_rejected) after fix C13-01
+                  old_loop_truncates_witness / fixed_loop_rejects_witness      defect #32 on the shipped loop
+                  table_never_panics, wsEolLoop_fuel_sufficient, sectLoop_fuel_sufficient
+  xref stream     xrefstream_rows_roundtrip                all widths {0..4}^3, /Index or [0 Size]
+                  xrefstream_spec                          decoder = declarative slicing, on every input
+                  dictinfo_rejects / dictinfo_accepts / dictinfo_never_panics   get_dict_info <=> well-formed
+                  rows_terminate, rows_hostile_count_rejected, parseStream_never_panics
+  both            numbering_consecutive                    obj = start + k on every accepted input
+  Non-vacuity examples are at the end of the file.
 -/
 import Parsley.Lemmas.Xref
 namespace Parsley.C13
